@@ -16,10 +16,10 @@ from . import search as S
 
 FLAVOURS = ["digraph", "sync_digraph"]
 TIERS = {
-    "quick": dict(families=[dict(nodes=3, max_edges=4), dict(nodes=4, max_edges=3)], instances=4,
-                  graphs=60, gnodes=16, rinst=3),
-    "thorough": dict(families=[dict(nodes=3, max_edges=5), dict(nodes=4, max_edges=4)], instances=8,
-                     graphs=70, gnodes=30, rinst=4),
+    "quick": dict(families=[dict(nodes=3, max_edges=4), dict(nodes=4, max_edges=4)], instances=12,
+                  graphs=60, gnodes=16, rinst=3, extra=40),
+    "thorough": dict(families=[dict(nodes=3, max_edges=5), dict(nodes=4, max_edges=5)], instances=24,
+                     graphs=70, gnodes=30, rinst=4, extra=200),
 }
 
 
@@ -86,7 +86,7 @@ def run(pid, tier, seed):
     d = os.path.join(vlib.WORK, tag, "rec")
     os.makedirs(d, exist_ok=True)
     pad = T["gnodes"]
-    jobs = [("record-scc", dict(flavour=f, seed=seed, graphs=T["graphs"], nodes=pad, pad=pad, instances=T["rinst"],
+    jobs = [("record-scc", dict(flavour=f, seed=seed, graphs=T["graphs"], nodes=pad, pad=pad, instances=T["rinst"], extra=T["extra"],
                                 trace=os.path.join(d, "trace_%s.ndjson" % f)), os.path.join(d, "rec_%s.json" % f)) for f in FLAVOURS]
     recs = vlib.harness_parallel(jobs)
     events = 0
@@ -105,7 +105,9 @@ def run(pid, tier, seed):
     rep.cov.update({
         "states": states, "transitions": transitions, "traces_validated_against_impl": cases + sum(x["graphs"] for x in recs),
         "tlc_cases_replayed_into_impl": cases, "implementation_executions_compared": execs,
-        "recorded_events_validated_by_tlc": events, "evaluations": execs + events, "distinct_nontrivial": nontriv,
+        "recorded_events_validated_by_tlc": events,
+        "random_graph_executions (partitions not seen before for that graph are logged and judged by TLC)": sum(x.get("executions", 0) for x in recs),
+        "evaluations": execs + events, "distinct_nontrivial": nontriv,
         "rule": "one execution = scc() on one fresh container (own hash state) holding one graph inserted in one order; "
                 "non-trivial = graph has an edge; distinct by (graph, insertion order)",
         "exhaustive": True, "model_drift": drift, "models": models, "flavours": FLAVOURS, "action_coverage_small_model": cov,
